@@ -1,5 +1,5 @@
 """C09 — shared-memory datasets keep their bytes, are protected in use, stay reachable (structural clauses)."""
-from .shm import (r_get_pagein, r_pageoutable, r_eviction_flow, r_purge, r_close_callback, r_pageout_transition, r_disk,
+from .shm import (r_reader_ids, r_get_pagein, r_pageoutable, r_eviction_flow, r_purge, r_close_callback, r_pageout_transition, r_disk,
                   r_pageout_callback, r_pagein_callback)
 
 META = {
@@ -12,4 +12,4 @@ META = {
     "assumptions": ["SharedMemory / files / thread pools are opaque effects; `callback` closures analysed with the facts at submission"],
 }
 RULES = [r_get_pagein, r_pageoutable, r_eviction_flow, r_purge, r_close_callback, r_pageout_transition, r_pageout_callback,
-         r_pagein_callback, r_disk]
+         r_pagein_callback, r_disk, r_reader_ids]
